@@ -50,6 +50,7 @@ namespace
         long                               start{1}, end{8};
         bool                               cleanup{true};
         bool                               slots{false};   // dump every live graph's schedule table at the end of each root cycle
+        long                               rt_ms{0};       // > 0: run in real-time mode from the wall clock's now for this many milliseconds
         std::map<std::string, GraphSpec>   graphs;
         std::map<long, NodeSpec>           nodes;
     };
@@ -1673,6 +1674,11 @@ namespace
         Obs                  obs;
         GraphExecutorBuilder eb;
         eb.graph_builder(gb).start_time(to_dt(scn.start)).end_time(to_dt(scn.end)).cleanup_on_error(scn.cleanup).add_lifecycle_observer(&obs);
+        if (scn.rt_ms > 0)
+        {
+            const DateTime wall_now = std::chrono::time_point_cast<DateTime::duration>(std::chrono::system_clock::now());
+            eb.mode(GraphExecutorMode::RealTime).start_time(wall_now).end_time(wall_now + std::chrono::milliseconds{scn.rt_ms});
+        }
         if (runner) { eb.phase_runner(std::move(runner)); }
         {
             GraphExecutorValue ex = eb.make_executor();
@@ -1733,6 +1739,7 @@ namespace
                 scn->end     = l.geti("end", 8);
                 scn->cleanup = l.geti("cleanup", 1) != 0;
                 scn->slots   = l.geti("slots", 0) != 0;
+                scn->rt_ms   = l.geti("rt", 0);
             }
             else if (cmd == "graph")
             {
